@@ -226,6 +226,16 @@ def run(ctx):
         except AssertionError: ok = True
         except Exception: ok = False
         ctx.check('GroupedList.__init__#raises.AssertionError', 'GroupedList.__init__', ok, dict(history=[('init', 'dict', bad)]), 'overlapping groups accepted')
+    # missing-value objects: a NaN stored as member must be found through ANY NaN object (is_equal is NaN-insensitive)
+    import numpy as np
+    for stored, probe in ((float('nan'), np.nan), (np.nan, float('nan')), (np.float64('nan'), float('nan'))):
+        for build_ in (lambda s_: GL({'__NAN__': ['__NAN__', s_], 'a': ['a']}), lambda s_: GL({'a': ['a', s_], 'b': ['b']})):
+            g = build_(stored); leader = next(k for k, vs in g.content.items() if any(isinstance(v, float) and v != v for v in vs))
+            w = dict(history=[('init', 'dict', repr(dict(g.content)))], arg='NaN object')
+            ctx.check('GroupedList.get_group#post.nan_member_found', 'GroupedList.get_group', g.get_group(probe) == leader, w, 'get_group(NaN) = %r, expected leader %r' % (g.get_group(probe), leader))
+            ctx.check('GroupedList.contains#post.nan_member_found', 'GroupedList.contains', bool(g.contains(probe)), w, 'contains(NaN) is False')
+            g2 = g.sort_by(list(reversed(list(g))))
+            ctx.check('GroupedList.get_group#post.nan_member_found', 'GroupedList.get_group', g2.get_group(probe) == leader, dict(w, after='sort_by'), 'after sort_by')
     if ctx.thorough():
         for n in range(3000):
             init = ctx.rng.choice(inits); g, m = build(init); hist = [('init',) + init]
